@@ -9,6 +9,7 @@ import WR.C04.Spec
 import WR.C04.Lemmas
 import WR.Gen.C04Tables
 import WR.C04.RefTable
+import WR.C04.LemmasLengths
 namespace WR.Props.C04
 open WR.C04
 
@@ -386,6 +387,110 @@ theorem fontWeight_total (chain : List Node) (hne : chain ≠ [])
           cases rest with
           | nil => simp only [ctxOf, rootCtx, h1, h5]; exact v400
           | cons m r => simp only [ctxOf, h1]; exact hrest (by simp)
+
+/-! ## the generic length traversal (all tuple / list / function valued length computers) -/
+
+/- `computed_is_absolute`: after computing, no em/ex/ch/rem/pt/pc/in/cm/mm/q remains.
+   `computed_eq_spec`: each length is value × the CSS factor (exact ratios; em/ex/ch × the element's own
+   font size, rem × the root's).  `computed_non_length`, `computed_shape`: percentages, numbers, angles,
+   keywords and the shape of the value are untouched.  `computed_idempotent`: computing a computed value
+   changes nothing.  `computed_independent`: the result is a function of (declared value, own font
+   context) by construction — and of the declared value ALONE when it has no font-relative unit; this is
+   what the shared-rule judge relies on.  `lengthArith_generic`: the scalar `length_` used by `computed`
+   is this traversal on one length. -/
+
+mutual
+theorem computed_is_absolute (c : FontCtx) : ∀ v, isAbsolute (computeLengths c v) = true
+    | .len x u => by
+      have h := unitFactor_some_iff c u
+      unfold computeLengths
+      cases hf : unitFactor c u with
+      | some f => simp [isAbsolute]
+      | none => simp [hf] at h; simp [isAbsolute, ← h]
+    | .kw s => by simp [computeLengths, isAbsolute]
+    | .node t cs => by simp [computeLengths, isAbsolute, computed_is_absoluteL c cs]
+theorem computed_is_absoluteL (c : FontCtx) : ∀ vs, isAbsoluteL (computeLengthsL c vs) = true
+    | .nil => by simp [computeLengthsL, isAbsoluteL]
+    | .cons h t => by simp [computeLengthsL, isAbsoluteL, computed_is_absolute c h, computed_is_absoluteL c t]
+end
+
+theorem computed_eq_spec (c : FontCtx) (x : Rat) (u : Nat) (f : Rat) (h : specFactor c u = some f) :
+    computeLengths c (.len x u) = .len (x * f) uPx := by
+  simp [computeLengths, unitFactor_eq_spec, h]
+
+theorem computed_non_length (c : FontCtx) (x : Rat) (u : Nat) (h : isLengthUnit u = false) :
+    computeLengths c (.len x u) = .len x u := by
+  have := unitFactor_some_iff c u
+  rw [h] at this
+  cases hf : unitFactor c u with
+  | some f => simp [hf] at this
+  | none => simp [computeLengths, hf]
+
+mutual
+theorem computed_idempotent (c : FontCtx) : ∀ v, computeLengths c (computeLengths c v) = computeLengths c v
+    | .len x u => by
+      cases hf : unitFactor c u with
+      | some f => simp only [computeLengths, hf, unitFactor_px, Rat.mul_one]
+      | none => simp only [computeLengths, hf]
+    | .kw s => by simp [computeLengths]
+    | .node t cs => by simp [computeLengths, computed_idempotentL c cs]
+theorem computed_idempotentL (c : FontCtx) : ∀ vs, computeLengthsL c (computeLengthsL c vs) = computeLengthsL c vs
+    | .nil => by simp [computeLengthsL]
+    | .cons h t => by simp [computeLengthsL, computed_idempotent c h, computed_idempotentL c t]
+end
+
+mutual
+theorem computed_shape (c : FontCtx) : ∀ v, shape (computeLengths c v) = shape v
+    | .len x u => by
+      have h := unitFactor_some_iff c u
+      unfold computeLengths
+      cases hf : unitFactor c u with
+      | some f => simp [hf] at h; simp [shape, ← h, isLengthUnit, uPx]
+      | none => simp [shape]
+    | .kw s => by simp [computeLengths, shape]
+    | .node t cs => by simp [computeLengths, shape, computed_shapeL c cs]
+theorem computed_shapeL (c : FontCtx) : ∀ vs, shapeL (computeLengthsL c vs) = shapeL vs
+    | .nil => by simp [computeLengthsL, shapeL]
+    | .cons h t => by simp [computeLengthsL, shapeL, computed_shape c h, computed_shapeL c t]
+end
+
+mutual
+theorem computed_independent (c₁ c₂ : FontCtx) : ∀ v, fontFree v = true → computeLengths c₁ v = computeLengths c₂ v
+    | .len x u, h => by
+      simp only [fontFree, Bool.not_eq_true'] at h
+      simp [computeLengths, unitFactor_fontFree c₁ c₂ u h]
+    | .kw s, _ => by simp [computeLengths]
+    | .node t cs, h => by
+      simp only [fontFree] at h
+      simp [computeLengths, computed_independentL c₁ c₂ cs h]
+theorem computed_independentL (c₁ c₂ : FontCtx) : ∀ vs, fontFreeL vs = true → computeLengthsL c₁ vs = computeLengthsL c₂ vs
+    | .nil, _ => by simp [computeLengthsL]
+    | .cons a t, h => by
+      simp only [fontFreeL, Bool.and_eq_true] at h
+      simp [computeLengthsL, computed_independent c₁ c₂ a h.1, computed_independentL c₁ c₂ t h.2]
+end
+
+
+/-- the scalar `length_` of the model (WR/C04/Model.lean, used by `computed`) is the generic traversal
+    on a single length -/
+theorem lengthArith_generic (p : Nat) (n : Node) (x f rf : Rat) (u uf ur : Nat)
+    (hx : x ≠ 0) (hu : isLengthUnit u = true) :
+    ∃ y, computeLengths ⟨f, rf, n.exR, n.chR⟩ (.len x u) = .len y uPx ∧
+      lengthArith p n (.dim x u) (.dim f uf) (.dim rf ur) false = .dim y uPx := by
+  simp only [isLengthUnit, Bool.and_eq_true, decide_eq_true_eq] at hu
+  have : u = 3 ∨ u = 4 ∨ u = 5 ∨ u = 6 ∨ u = 7 ∨ u = 8 ∨ u = 9 ∨ u = 10 ∨ u = 11 ∨ u = 12 ∨ u = 13 := by omega
+  rcases this with rfl | rfl | rfl | rfl | rfl | rfl | rfl | rfl | rfl | rfl | rfl <;>
+    simp [computeLengths, unitFactor, lengthArith, pxPer, hx, asPixels, Val.num?,
+      uPx, uPt, uPc, uIn, uCm, uMm, uQ, uEm, uEx, uCh, uRem] <;> grind
+
+/-- `transform: translate(2em, 10%) rotate(1rad)` at font size 10px -/
+example : computeLengths ⟨10, 16, 1/2, 1/2⟩
+    (.node "list" (.cons (.node "translate" (.cons (.len 2 uEm) (.cons (.len 10 uPerc) .nil)))
+      (.cons (.node "rotate" (.cons (.len 1 14) .nil)) .nil)))
+    = .node "list" (.cons (.node "translate" (.cons (.len 20 uPx) (.cons (.len 10 uPerc) .nil)))
+      (.cons (.node "rotate" (.cons (.len 1 14) .nil)) .nil)) := by
+  simp [computeLengths, computeLengthsL, unitFactor, pxPer, uEm, uPx, uPerc, uPt, uPc, uIn, uCm, uMm, uQ, uEx, uCh, uRem]
+  grind
 
 /-! ## non-vacuity -/
 
